@@ -11,8 +11,8 @@ func TestCheck(t *testing.T) {
 	defer e.Finish()
 	rec = e.Rec
 
-	rt.Rapid(e, "values", 100_000, 1_200_000, genCase(false), Run)
-	rt.Rapid(e, "usercode", 140_000, 1_600_000, genCase(true), Run)
+	rt.Rapid(e, "values", 100_000, 400_000, genCase(false), Run)
+	rt.Rapid(e, "usercode", 140_000, 600_000, genCase(true), Run)
 	rt.Rapid(e, "wide-names", 20_000, 300_000, genWide, Run)
 	rt.Rapid(e, "times", 40_000, 400_000, genTimes, Run)
 }
